@@ -37,6 +37,7 @@ import json
 import random
 import re
 import sys
+import time
 import types
 import warnings
 from pathlib import Path
@@ -58,6 +59,8 @@ KEYS = {
     "flatten": "consistent-lists-pairwise-flattened-merge:declared-order-contradicted",
     "lazy": "media-read-before-template-js-css:relative-paths-not-converted",
 }
+
+DEV_CODES = {"I": "inherit", "F": "flatten", "L": "lazy"}
 
 _world: Optional["World"] = None
 
@@ -281,11 +284,12 @@ def failing(ev, exp) -> List[str]:
 # ---------------------------------------------------------------- TLC plumbing
 def _cfg(path: Path, spec: str, *, maxn=3, maxbases=2, maxacc=0, lists="ListsQuick", attrs="AttrsNone",
          kinds="KindsBasic", exts="ExtsAll", rel="NoRel", impld="NoDevs", accattrs="AccAll", accvias="ViasBoth",
-         extra="") -> None:
+         trim=False, extra="") -> None:
     path.write_text(
         f"SPECIFICATION {spec}\nCONSTANTS\n  MaxN = {maxn}\n  MaxBases = {maxbases}\n  MaxAcc = {maxacc}\n"
         f"  Lists <- {lists}\n  Attrs <- {attrs}\n  Kinds <- {kinds}\n  Exts <- {exts}\n"
-        f"  RelFiles <- {rel}\n  ImplD <- {impld}\n  AccAttrs <- {accattrs}\n  AccVias <- {accvias}\n{extra}")
+        f"  RelFiles <- {rel}\n  ImplD <- {impld}\n  AccAttrs <- {accattrs}\n  AccVias <- {accvias}\n"
+        f"  Trim = {'TRUE' if trim else 'FALSE'}\n{extra}")
 
 
 TLC_PAR = 4          # concurrent single-worker TLC processes for trace batches
@@ -309,9 +313,10 @@ def _tlc_validate_chunk(args) -> Tuple[Dict[int, Dict[str, Any]], int]:
     for tid, why in v["rejected"].items():
         res[tid] = {"verdict": "reject", "event": why["event"], "clauses": why["clauses"], "known": []}
     for line in r.out.splitlines():
-        m = re.match(r'<<"KNOWN", (\d+), (\d+), "([a-z ]*)", "(.*)">>$', line)
+        m = re.match(r'<<"KNOWN", (\d+), (\d+), "([IFL|]*)", "(.*)">>$', line)
         if m:
-            res[int(m.group(1))]["known"].append({"event": int(m.group(2)), "devs": m.group(3).split(),
+            alts = [sorted(DEV_CODES[ch] for ch in alt) for alt in m.group(3).split("|")]
+            res[int(m.group(1))]["known"].append({"event": int(m.group(2)), "alternatives": sorted(alts),
                                                   "clauses": m.group(4).strip()})
         elif line.startswith('<<"KNOWN"'):
             raise MachineryError(f"unparsable verdict line: {line}")
@@ -334,16 +339,18 @@ def tlc_validate(traces: List[Dict[str, Any]], tag: str, chunk: int = 500) -> Di
     return out
 
 
-def judge(chk: Check, pending: List[Dict[str, Any]], tag: str, py_flagged: bool) -> None:
-    """`pending`: runs (case + events) to be judged by TLC.  REJECT -> violation; KNOWN ->
-    violation carrying the finding key of each named deviation; ACCEPT -> conforming.
-    With py_flagged the harness already found the run to contradict the exported expectation,
-    so an ACCEPT means the two forms of the oracle disagree: machinery error."""
+def as_traces(pending: List[Dict[str, Any]]) -> List[Dict[str, Any]]:
+    return [{"id": i + 1, "cls": p["cls"], "rel": p["rel"], "events": p["events"]} for i, p in enumerate(pending)]
+
+
+def apply_verdicts(chk: Check, pending: List[Dict[str, Any]], res: Dict[Any, Any], py_flagged: bool) -> None:
+    """`pending`: runs (case + events) judged by TLC (`res` = tlc_validate(as_traces(pending))).
+    REJECT -> violation; KNOWN -> violation carrying the finding key of each named deviation;
+    ACCEPT -> conforming.  With py_flagged the harness already found the run to contradict the
+    exported expectation, so a plain ACCEPT means the two forms of the oracle disagree: machinery."""
     if not pending:
         return
-    traces = [{"id": i + 1, "cls": p["cls"], "rel": p["rel"], "events": p["events"]} for i, p in enumerate(pending)]
-    res = tlc_validate(traces, tag)
-    chk.add("trace_states", res.pop("_states"))  # type: ignore[arg-type]
+    chk.add("trace_states", res.get("_states", 0))
     for i, p in enumerate(pending):
         r = res[i + 1]
         case = {"kind": "run", "cls": p["cls"], "rel": p["rel"], "accesses": p["accesses"], "forms": p["forms"]}
@@ -353,19 +360,25 @@ def judge(chk: Check, pending: List[Dict[str, Any]], tag: str, py_flagged: bool)
                 raise MachineryError(f"C3 transcription and Python disagree: {r['clauses']} on {canon(p['cls'])}")
             chk.violation(case, {"event_index": r["event"], "event": ev, "failing_clauses": r["clauses"],
                                  "py_clauses": p.get("py_clauses")})
+            continue
         for k in r["known"]:
+            # explained by named deviations; among the minimal explanations prefer one whose
+            # deviations are all still listed as open findings
             ev = p["events"][k["event"] - 1]
-            for d in k["devs"]:
+            alts = k["alternatives"]
+            devs = next((a for a in alts if all(chk.known.lookup(PID, KEYS[d]) for d in a)), alts[0])
+            for d in devs:
                 chk.violation(case, {"event_index": k["event"], "event": ev, "failing_clauses": k["clauses"],
-                                     "explained_by_deviation": k["devs"]}, key=KEYS.get(d, d))
-        if py_flagged and r["verdict"] == "accept" and not r["known"]:
+                                     "explained_by_deviations": devs, "all_minimal_explanations": alts},
+                              key=KEYS[d])
+        if py_flagged and not r["known"]:
             raise MachineryError(f"exported expectation and Trace_C16 disagree on {canon(case)}: {p.get('py_clauses')}")
 
 
 # ---------------------------------------------------------------- spec -> code
 FAMILIES = {
     # name: (cfg constants quick, cfg constants thorough)
-    "media": (dict(maxn=3, lists="ListsQuick", kinds="KindsBasic"),
+    "media": (dict(maxn=3, lists="ListsQuick", kinds="KindsBasic", trim=True),
               dict(maxn=3, lists="ListsThorough", kinds="KindsAll")),
     "attr": (dict(maxn=3, lists="ListsNone", kinds="KindsNone", attrs="AttrsAll"),
              dict(maxn=4, lists="ListsNone", kinds="KindsNone", attrs="AttrsAll")),
@@ -430,7 +443,8 @@ def _replay_chunk(args):
     return pending, counted, samples
 
 
-def export_and_replay(chk: Check, fam: str, quick: bool, limit: Optional[int] = None) -> None:
+def export_cases(fam: str, quick: bool):
+    """TLC: build and export every hierarchy of the family (runs in a thread)."""
     w = workdir("c16mc")
     consts = FAMILIES[fam][0 if quick else 1]
     cfg = w / f"mc_{fam}.cfg"
@@ -440,9 +454,15 @@ def export_and_replay(chk: Check, fam: str, quick: bool, limit: Optional[int] = 
     rows = tlc.read_ndjson(out)
     if len(rows) != r.distinct - 1:
         raise MachineryError(f"export incomplete: {len(rows)} rows for {r.distinct} states")
-    chk.add("states", r.distinct)
-    chk.add("transitions", r.generated)
-    maxn = consts["maxn"]
+    return rows, r.distinct, r.generated, consts["maxn"]
+
+
+def replay_cases(chk: Check, fam: str, quick: bool, exported, pool, limit: Optional[int] = None):
+    """Replay the exported hierarchies on the real library; returns the runs that contradict the
+    exported expectation (TLC then cross-checks and classifies them)."""
+    rows, distinct, generated, maxn = exported
+    chk.add("states", distinct)
+    chk.add("transitions", generated)
     exp_of = {canon(row["cls"]): row["last"] for row in rows}
     # a hierarchy that can still be extended is replayed as the prefix of its extensions
     todo = [(i, row) for i, row in enumerate(rows)
@@ -457,14 +477,11 @@ def export_and_replay(chk: Check, fam: str, quick: bool, limit: Optional[int] = 
             exps[k] = exp_of[canon(cls[:k])]
         m = len(cls) if row["last"]["create"] == ["ok"] else len(cls) - 1
         items.append((idx, cls, row["rel"], exps, m))
-    nproc = REPLAY_PROCS if len(items) > 2000 else 1
-    chunks = [(fam, quick, chk.seed, items[k::nproc * 4]) for k in range(nproc * 4)]
-    if nproc > 1:
-        import multiprocessing as mp
-        with mp.get_context("fork").Pool(nproc) as pool:
-            results = pool.map(_replay_chunk, chunks)
+    if pool is not None and len(items) > 2000:
+        n = REPLAY_PROCS * 4
+        results = pool.map(_replay_chunk, [(fam, quick, chk.seed, items[k::n]) for k in range(n)])
     else:
-        results = [_replay_chunk(c) for c in chunks]
+        results = [_replay_chunk((fam, quick, chk.seed, items))]
     pending: List[Dict[str, Any]] = []
     runs = 0
     for pend, counted, samples in results:
@@ -479,8 +496,7 @@ def export_and_replay(chk: Check, fam: str, quick: bool, limit: Optional[int] = 
     chk.add("hierarchies_replayed", len(todo))
     chk.add("runs_replayed", runs)
     chk.add("runs_contradicting_spec", len(pending))
-    # python's verdicts are cross-checked and classified by TLC
-    judge(chk, pending, f"explain_{fam}", py_flagged=True)
+    return pending
 
 
 def model_check_machine(quick: bool) -> Dict[str, Any]:
@@ -499,7 +515,7 @@ def model_check_machine(quick: bool) -> Dict[str, Any]:
                          extra=inv),
         # three classes (multiple inheritance, extend lists), media only
         "machine3": dict(maxn=3, maxacc=2, lists="ListsTiny" if quick else "ListsQuick", accattrs="AccMedia",
-                         accvias="ViasCls", extra=inv),
+                         accvias="ViasCls", trim=quick, extra=inv),
         "dev_inherit": dict(maxn=3, maxacc=1, lists="ListsTiny", accattrs="AccMedia", accvias="ViasCls",
                             impld="DevInherit", extra="INVARIANT ImplRefines\n"),
         "dev_flatten": dict(maxn=3, maxacc=1, lists="ListsQuick", accattrs="AccMedia", accvias="ViasCls",
@@ -558,7 +574,8 @@ def gen_hierarchy(rnd: random.Random) -> Tuple[List[Dict[str, Any]], List[int]]:
     return cls, rel
 
 
-def random_traces(chk: Check, ntraces: int) -> None:
+def random_traces(chk: Check, ntraces: int) -> List[Dict[str, Any]]:
+    """Record seeded random deeper runs on the real library (validated by TLC afterwards)."""
     rnd = random.Random(chk.seed * 7919 + 16)
     pending = []
     for n in range(ntraces):
@@ -578,25 +595,47 @@ def random_traces(chk: Check, ntraces: int) -> None:
         chk.count({"cls": cls, "rel": rel, "accesses": acc})
         if n < 3:
             chk.sample({"random_run": {"cls": cls, "rel": rel, "events": events[-2:]}}, limit=9)
-    judge(chk, pending, "random", py_flagged=False)
     chk.add("traces_validated_against_impl", len(pending))
+    return pending
 
 
 # ---------------------------------------------------------------- entry points
 def _body(chk: Check, quick: bool, small: bool = False) -> None:
+    """The whole check.  TLC work (exports, memo machine, trace validation) runs in threads beside
+    the Python replays; the replay workers are forked before any thread exists."""
+    import multiprocessing as mp
     from concurrent.futures import ThreadPoolExecutor
     world()
-    with ThreadPoolExecutor(max_workers=1) as ex:
-        fut = None if small else ex.submit(model_check_machine, quick)   # TLC only; runs beside the replays
-        for fam in FAMILIES:
-            export_and_replay(chk, fam, quick, limit=600 if small else None)
-        random_traces(chk, 120 if small else (1500 if quick else 15000))
-        if fut is not None:
-            for k, v in fut.result().items():
-                if isinstance(v, int):
-                    chk.add(k, v)
-                else:
-                    chk.cov[k] = v
+    t_start = time.time()
+    phase = chk.cov.setdefault("phase_done_at_s", {})
+    pool = None if small else mp.get_context("fork").Pool(REPLAY_PROCS)
+    try:
+        with ThreadPoolExecutor(max_workers=8) as ex:
+            exports = {fam: ex.submit(export_cases, fam, quick) for fam in ("attr", "rel", "media")}
+            machine = None if small else ex.submit(model_check_machine, quick)
+            judged = []          # (pending runs, future of their TLC verdicts, py_flagged)
+            rnd_runs = random_traces(chk, 120 if small else (1000 if quick else 12000))
+            judged.append((rnd_runs, ex.submit(tlc_validate, as_traces(rnd_runs), "random"), False))
+            phase["random_recorded"] = round(time.time() - t_start, 1)
+            for fam in ("attr", "rel", "media"):
+                limit = 600 if small else (1000 if quick and fam == "rel" else None)
+                pend = replay_cases(chk, fam, quick, exports[fam].result(), pool, limit=limit)
+                judged.append((pend, ex.submit(tlc_validate, as_traces(pend), f"explain_{fam}"), True))
+                phase[f"{fam}_replayed"] = round(time.time() - t_start, 1)
+            for pend, fut, flagged in judged:
+                apply_verdicts(chk, pend, fut.result(), flagged)
+            phase["verdicts"] = round(time.time() - t_start, 1)
+            if machine is not None:
+                for k, v in machine.result().items():
+                    if isinstance(v, int):
+                        chk.add(k, v)
+                    else:
+                        chk.cov[k] = v
+            phase["machine"] = round(time.time() - t_start, 1)
+    finally:
+        if pool is not None:
+            pool.terminate()
+            pool.join()
 
 
 def run(tier: str) -> int:
